@@ -65,6 +65,7 @@ type caseCfg struct {
 	PlanStyle   int
 	BufSize     int
 	Gated       bool // the refusable unit is only handed out after every earlier unit was applied
+	Probe       bool
 }
 
 func (c caseCfg) String() string {
@@ -86,13 +87,22 @@ func genCase(i int, r *rand.Rand) caseCfg {
 	c.PlanStyle = r.Intn(4)
 	c.BufSize = []int{64, 4096, 64 * 1024}[r.Intn(3)]
 	c.Gated = r.Intn(4) != 0
-	if os.Getenv("C18_FOCUS") != "" { // debugging aid: only the refusal-report clause, cheapest configuration
-		c.Mode = config.ReplayModeSync
-		c.Terminal = terminals[1+i%2]
-		c.Snapshot = "empty"
-		c.NClean = 1
-		c.Gated = true
-	}
+	return c
+}
+
+// probeCase: the cheapest configuration that reaches the "refused with an error" clause — an empty
+// snapshot, one or two committable units, then the refusable unit behind the gate.  The probes
+// repeat that one step many times (what Send returns after a refusal is decided by which of two
+// goroutines of the tool closes the replay first).
+func probeCase(i int, r *rand.Rand) caseCfg {
+	c := genCase(i, r)
+	c.Mode = modes[[]int{0, 0, 0, 1, 2}[i%5]]
+	c.Terminal = terminals[1+i%2]
+	c.Snapshot = "empty"
+	c.NClean = 1 + r.Intn(2)
+	c.NAfter = 1
+	c.Gated = true
+	c.Probe = true
 	return c
 }
 
@@ -104,14 +114,13 @@ func main() {
 	run := harness.New("C18", "exploration",
 		"case = (mode, terminal unit kind, snapshot kind) cycled by index × PRNG(seed,i) → (3–4 node cluster double, window, lanes, optional key-prefix blacklist, snapshot dataset whose key names "+
 			"carry every brace arrangement, stream of 6–12 committable units [single-slot commands/transactions over the reference command table with 1–5 keys placed in one slot by brace shape, "+
-			"arbitrary brace-dense one-key units, near-miss same-slot pairs, COMMAND GETKEYS-resolved commands, filter-reduced units] followed by nothing / a cross-slot unit / an undeterminable unit and 1–3 units behind it); "+
+			"arbitrary brace-dense one-key units, near-miss same-slot pairs, COMMAND GETKEYS-resolved commands, filter-reduced units] followed by nothing / a cross-slot unit / an undeterminable unit and 1–3 units behind it) "+
+			"+ refusal-report probes (empty snapshot, 1–2 committable units, then the refusable unit behind the gate; sync-heavy); "+
 			"non-trivial = the unit's outcome was observed on the cluster's request log; distinct = (mode, unit class, key-class tuple, outcome)")
 	run.Watchdog(28 * time.Minute)
 	run.MinDistinct(12)
-	n := run.N(45, 2000)
-	if v, err := strconv.Atoi(os.Getenv("C18_FOCUS")); err == nil && v > 0 {
-		n = v
-	}
+	n := run.N(45, 1300)
+	nProbe := run.N(12, 500)
 	run.Set("double_commands_registered_from_ref_table", len(added))
 	run.Assume("cluster double (fakeredis): one cluster-wide lock serialises all nodes; slots by ref.HashSlot; MOVED / CROSSSLOT decided as Redis 7 getNodeByQuery does at queue time and again at EXEC over all queued keys; a MULTI block is executed only by the owner of its single slot")
 	run.Assume("the double routes — and answers COMMAND GETKEYS for — every command of the reference key table by the reference key positions (fakeredis.RegisterRefCommands); business writes are logged and answered +OK, not executed (no type clashes); the reserved bookkeeping namespace is executed for real")
@@ -122,7 +131,15 @@ func main() {
 
 	d := newDriver()
 	defer d.Close()
-	harness.Parallel(n, 12, func(i int) {
+	harness.Parallel(n+nProbe, 14, func(i int) {
+		if i >= n {
+			key := fmt.Sprintf("probe-%d", i-n)
+			if run.WantCase(key) {
+				r := run.Rand(key)
+				oneCase(run, d, key, 100000+i-n, r, probeCase(i-n, r))
+			}
+			return
+		}
 		key := fmt.Sprintf("case-%d", i)
 		if !run.WantCase(key) {
 			return
@@ -401,6 +418,9 @@ func oneCase(run *harness.Run, d *driver, key string, idx int, r *rand.Rand, cc 
 	blocks, direct := blocksOf(reqs)
 	run.Eval(1)
 	run.Count("cases", 1)
+	if cc.Probe {
+		run.Count("cases_refusal_report_probes", 1)
+	}
 	run.Count("cluster_requests_logged", int64(len(all)))
 	run.Seen("modes", modeS)
 
